@@ -22,7 +22,9 @@ import (
 	"verifharness/hx"
 )
 
-// c14.sched  nHosts maxConns maxFails expiry unhealthyBits nThreads events retry
+// c14.sched  nHosts maxConns maxFails expiry unhealthyBits nThreads events retry [layout]
+//   layout  (optional 9th field, see c04_layout.go) how the upstream block is written: backends on the directive line /
+//           on `upstream` lines / mixed, the lines of the block in the given order
 //   retry   1 = try_duration 30s, try_interval 1ms: after a failed attempt the request selects again (0 = try_duration 0)
 //   expiry  0 fail_timeout 0 (failures not counted) | 1 fail_timeout 1h (never expires within the run) | 2 fail_timeout 15ms (awaited at once)
 //           3 fail_timeout 300ms: failures are recorded at least 120ms apart and the event "w" waits for the oldest to expire
@@ -192,7 +194,25 @@ func c14Wait(th *c14Thread, states ...int32) bool {
 	}
 }
 
+func c14Block(nHosts int, id string, maxConns, maxFails int, ft string, retry bool) ([]string, []blkLine) {
+	backends := make([]string, nHosts)
+	for i := range backends {
+		backends[i] = fmt.Sprintf("h%d.test:80", i)
+	}
+	lines := []blkLine{{"", " policy verif_barrier " + id + "\n"}, {"", fmt.Sprintf(" max_conns %d\n", maxConns)}, {"", fmt.Sprintf(" max_fails %d\n", maxFails)},
+		{"", " fail_timeout " + ft + "\n"}, {"", " header_upstream +X-Verif-Tag t\n"}}
+	if retry {
+		lines = append(lines, blkLine{"", " try_duration 30s\n"}, blkLine{"", " try_interval 1ms\n"})
+	}
+	return backends, lines
+}
+
 func c14Eval(f []string) (string, []string) {
+	lay := ""
+	if len(f) == 9 {
+		lay = f[8]
+		f = f[:8]
+	}
 	if len(f) != 8 {
 		return "bad-case", nil
 	}
@@ -211,17 +231,12 @@ func c14Eval(f []string) (string, []string) {
 	if ft == "" {
 		return "bad-case", nil
 	}
-	var cfg strings.Builder
-	cfg.WriteString("proxy /")
-	for i := 0; i < nHosts; i++ {
-		fmt.Fprintf(&cfg, " h%d.test:80", i)
+	backends, lines := c14Block(nHosts, id, maxConns, maxFails, ft, retry)
+	cfg, ok := blkWrite("proxy /", backends, lines, lay)
+	if !ok {
+		return "bad-case:layout", nil
 	}
-	fmt.Fprintf(&cfg, " {\n policy verif_barrier %s\n max_conns %d\n max_fails %d\n fail_timeout %s\n header_upstream +X-Verif-Tag t\n", id, maxConns, maxFails, ft)
-	if retry {
-		cfg.WriteString(" try_duration 30s\n try_interval 1ms\n")
-	}
-	cfg.WriteString("}\n")
-	ups, err := proxy.NewStaticUpstreams(casketfile.NewDispenser("Testfile", strings.NewReader(cfg.String())), "")
+	ups, err := proxy.NewStaticUpstreams(casketfile.NewDispenser("Testfile", strings.NewReader(cfg)), "")
 	if err != nil || len(ups) != 1 {
 		return fmt.Sprintf("setup-error:%v", err), nil
 	}
@@ -570,6 +585,7 @@ func c14Eval(f []string) (string, []string) {
 		tl = append(tl, "overlapping-select-windows")
 	}
 	tl = append(tl, fmt.Sprintf("threads=%d", nThreads), "expiry="+expiry)
+	tl = append(tl, blkLayoutTags(lay)...)
 	if maxConns > 0 {
 		tl = append(tl, "capped")
 	}
@@ -591,6 +607,7 @@ func c14Ev(e [2]int) string {
 
 func c14Gen(g *hx.Gen) {
 	r := g.Rng
+	also, emitted := 3, 0
 	emit := func(nHosts, mc, mf, expiry int, unh string, nThreads int, evs [][2]int) {
 		// drain: let every request run to its end (answering ok). With a cap, a request may lose its slot and
 		// select again while another one is being forwarded, so allow four rounds per request.
@@ -604,6 +621,12 @@ func c14Gen(g *hx.Gen) {
 			parts[i] = c14Ev(e)
 		}
 		g.Case(strconv.Itoa(nHosts), strconv.Itoa(mc), strconv.Itoa(mf), strconv.Itoa(expiry), unh, strconv.Itoa(nThreads), strings.Join(parts, ","), "0")
+		// one case in `also` a second time with the upstream block written another way (backends on `upstream` lines or
+		// mixed, the lines in a seeded order — the block has more than four lines: sampled)
+		emitted++
+		if also > 0 && emitted%also == 0 {
+			g.Case(strconv.Itoa(nHosts), strconv.Itoa(mc), strconv.Itoa(mf), strconv.Itoa(expiry), unh, strconv.Itoa(nThreads), strings.Join(parts, ","), "0", blkRandLayout(r, nHosts))
+		}
 	}
 	// 1. exhaustive: two requests, every interleaving of their three steps (select, go on, end), both backends or only one up,
 	//    caps 0..2, each pair of outcomes ok/error
@@ -693,6 +716,10 @@ func c14Gen(g *hx.Gen) {
 			parts[i] = c14Ev(e)
 		}
 		g.Case(strconv.Itoa(nHosts), strconv.Itoa(mc), "50", strconv.Itoa(expiry), strings.Repeat("0", nHosts), strconv.Itoa(nThreads), strings.Join(parts, ","), "1")
+		emitted++
+		if also > 0 && emitted%also == 0 {
+			g.Case(strconv.Itoa(nHosts), strconv.Itoa(mc), "50", strconv.Itoa(expiry), strings.Repeat("0", nHosts), strconv.Itoa(nThreads), strings.Join(parts, ","), "1", blkRandLayout(r, nHosts))
+		}
 	}
 	// exhaustive: one or two requests, two backends, caps 0..2; request 0 fails k times on the preferred
 	// backend(s) before it answers, request 1 runs in between at every position
